@@ -306,17 +306,22 @@ func checkC20(c *km.Ctx) {
 		})
 		r.Add("R-C20-3", km.FuncName(fn), "certificates are fanned out", c.P.Pos(fn.Pos()), "publishCert sends the event to the subscribers (directly or through transmitEvent)", sprintf("%v", has), has)
 	}
-	if fn := c.MustFunc("R-C20-3", "keymasterd/eventnotifier", "(*EventNotifier).handleConnection"); fn != nil {
+	{
 		n := 0
-		km.Instrs(fn, func(in ssa.Instruction) {
-			if mk, ok := in.(*ssa.MakeChan); ok && strings.Contains(mk.Type().String(), "EventV0") {
-				n++
-				sz, isC := km.ConstInt(mk.Size)
-				r.Add("R-C20-3", km.FuncName(fn), "subscriber channel capacity", posOf(c, in), "buffered (capacity >= 1)", sprintf("%d", sz), isC && sz >= 1)
+		for _, fn := range c.P.AllFuncs {
+			if fn.Pkg == nil || fn.Pkg.Pkg.Path() != km.ModPath+"/keymasterd/eventnotifier" {
+				continue
 			}
-		})
+			km.Instrs(fn, func(in ssa.Instruction) {
+				if mk, ok := in.(*ssa.MakeChan); ok && strings.Contains(mk.Type().String(), "EventV0") {
+					n++
+					sz, isC := km.ConstInt(mk.Size)
+					r.Add("R-C20-3", km.FuncName(fn), "subscriber channel capacity", posOf(c, in), "buffered (capacity >= 1)", sprintf("%d", sz), isC && sz >= 1)
+				}
+			})
+		}
 		if n == 0 {
-			r.AnchorLost("R-C20-3", "subscriber channel creation in handleConnection")
+			r.AnchorLost("R-C20-3", "subscriber channel creation in the event notifier")
 		}
 	}
 	// every registration in the subscriber table is made under a key created for that one connection (a value
@@ -377,6 +382,30 @@ func checkC20(c *km.Ctx) {
 				return x.Parent() == top || x.Parent() == fn
 			case *ssa.Alloc:
 				return x.Heap && (x.Parent() == top || x.Parent() == fn)
+			case *ssa.Call:
+				// a constructor that makes the channel (and may register it) and hands it back
+				g := km.StaticCallee(x.Common())
+				if g == nil || g.Blocks == nil || !c.InModule(g) || depth >= 2 {
+					return false
+				}
+				nRet := 0
+				okAll := true
+				km.Instrs(g, func(in ssa.Instruction) {
+					if ret, ok := in.(*ssa.Return); ok {
+						if g.Recover != nil && ret.Block() == g.Recover {
+							return // the synthetic return after a recovered panic
+						}
+						nRet++
+						rv := km.Unwrap(km.ReturnValues(ret)[0])
+						if ct, ok := rv.(*ssa.ChangeType); ok {
+							rv = km.Unwrap(ct.X)
+						}
+						if mk, ok := rv.(*ssa.MakeChan); !ok || mk.Parent() != g {
+							okAll = false
+						}
+					}
+				})
+				return okAll && nRet > 0
 			case *ssa.Parameter:
 				// a registering helper: every caller hands in a value it created itself
 				if depth >= 2 {
